@@ -149,6 +149,17 @@ func (o *csObs) addLog(s string) {
 
 func csReqBytes(r csReq, idx int) []byte {
 	var b bytes.Buffer
+	if r.Kind == "unread" || r.Kind == "bigunread" {
+		// POST whose (streamed) body the handler does not read
+		n := map[string]int{"unread": 12 << 10, "bigunread": 320 << 10}[r.Kind]
+		fmt.Fprintf(&b, "POST /r%d HTTP/%s\r\nHost: example.com\r\nContent-Length: %d\r\n", idx, r.Ver, n)
+		if r.Conn != "none" {
+			fmt.Fprintf(&b, "Connection: %s\r\n", r.Conn)
+		}
+		b.WriteString("\r\n")
+		b.Write(bytes.Repeat([]byte("u"), n))
+		return b.Bytes()
+	}
 	fmt.Fprintf(&b, "GET /r%d HTTP/%s\r\nHost: example.com\r\n", idx, r.Ver)
 	if r.Conn != "none" {
 		fmt.Fprintf(&b, "Connection: %s\r\n", r.Conn)
@@ -207,6 +218,7 @@ func csRunScaled(b *csBeh, scale int) *csObs {
 		KeepHijackedConns:  b.Cfg.KeepHij,
 		Logger:             csNopLogger{},
 		MaxConnsPerIP:      map[bool]int{false: 0, true: 2}[b.Cfg.PerIP],
+		StreamRequestBody:  csHasKind(b, "unread", "bigunread"),
 		ReadTimeout:        csTimeout(b) * time.Duration(scale),
 		IdleTimeout:        csTimeout(b) * time.Duration(scale),
 		ConnState: func(c net.Conn, st ConnState) {
@@ -494,6 +506,19 @@ outer:
 }
 
 type csDisturbConn struct{ net.Conn }
+
+func csHasKind(b *csBeh, kinds ...string) bool {
+	for _, bt := range b.Batches {
+		for _, r := range bt {
+			for _, k := range kinds {
+				if r.Kind == k {
+					return true
+				}
+			}
+		}
+	}
+	return false
+}
 
 // csTimeout: scenarios in which the client goes silent need the server's timeouts
 func csTimeout(b *csBeh) time.Duration {
